@@ -103,7 +103,16 @@ def fn_text(fn):
     if not fn:
         return ""
     extra = "".join("  Real %s;\n" % n for n in fn["extra_syms"])
-    return ("\nfunction fq\n  input Real u;\n  output Real y;\nprotected\n  Real t;\n%salgorithm\n  t := %d * u;\n  y := t + 1;\nend fq;\n"
+    redecl = ""
+    if fn.get("redecl"):
+        # a class redeclaration whose replacing class (Heater) holds a class-typed component (Element e)
+        eextra = "".join("  Real %s;\n" % n for n in fn["elem_extra"])
+        redecl = ("\nmodel Element\n  parameter Real gain = 1;\n  Real u;\n  Real y;\n%sequation\n  y = gain * u;\nend Element;\n"
+                  "model Idle\n  Real out;\nequation\n  out = 0;\nend Idle;\n"
+                  "model Heater\n  Real out;\n  Element e(gain = %d);\nequation\n  e.u = 1;\n  out = e.y;\nend Heater;\n"
+                  "model Loop\n  replaceable model Source = Idle;\n  Source s;\nend Loop;\n"
+                  "model System\n  Loop l(redeclare model Source = Heater);\nend System;\nmodel Lab\n  Heater h;\nend Lab;\n" % (eextra, fn["k"]))
+    return (redecl + "\nfunction fq\n  input Real u;\n  output Real y;\nprotected\n  Real t;\n%salgorithm\n  t := %d * u;\n  y := t + 1;\nend fq;\n"
             "\nmodel UsesFq\n  Real a;\n  Real b;\nequation\n  a = time;\n  b = fq(a);\nend UsesFq;\n" % (extra, fn["k"]))
 
 
@@ -186,7 +195,7 @@ class History:
     def __init__(self, ctx, rng, lib, tags):
         from pymoca import parser
         self.ctx, self.r = ctx, rng
-        fn = {"k": rng.randint(2, 9), "extra_syms": []} if rng.random() < 0.4 else None
+        fn = {"k": rng.randint(2, 9), "extra_syms": [], "redecl": rng.random() < 0.5, "elem_extra": []} if rng.random() < 0.4 else None
         self.text0 = mlib.print_library(lib) + fn_text(fn)
         t0 = parser.parse(self.text0, bypass_cache=True)
         self.handles = [{"tree": t0, "lib": copy.deepcopy(lib), "depth": 0, "label": "original", "src": None, "fn": fn}]
@@ -289,6 +298,15 @@ class History:
             self.fresh += 1
             nm = "tq%d" % self.fresh
             snip = parse_snippet("model X\n  Real %s;\nend X;\n" % nm)
+            if h["fn"].get("redecl") and r.random() < 0.5:
+                # edit the class of the component inside the replacing class of the redeclaration
+                tree.classes["Element"].add_symbol(snip.classes["X"].symbols[nm])
+                h["fn"]["elem_extra"].append(nm)
+                self.ops.append(["edit_function", hi, "Element"])
+                self.has_edit = True
+                self.ctx.monitor("edits_applied")
+                self.ctx.cover("op:edit_class_of_redeclared_component:on-%s" % h["label"])
+                return None
             tree.classes["fq"].add_symbol(snip.classes["X"].symbols[nm])
             h["fn"]["extra_syms"].append(nm)
             self.ops.append(["edit_function", hi, "fq"])
@@ -402,7 +420,8 @@ class History:
     def op_flatten(self, hi, cname=None):
         r = self.r
         h = self.handles[hi]
-        cands = [cname] if cname else mlib.flattenable_classes(h["lib"]) + (["UsesFq"] * 3 if h.get("fn") else [])
+        cands = [cname] if cname else mlib.flattenable_classes(h["lib"]) + (["UsesFq"] * 3 if h.get("fn") else []) + (
+            ["System", "System", "Lab", "Heater"] if (h.get("fn") or {}).get("redecl") else [])
         # sometimes ask for a class that only exists in another handle
         others = [c for o in self.handles for c in mlib.flattenable_classes(o["lib"]) if c.startswith("Kq")]
         if others and not cname and r.random() < 0.25:
